@@ -144,7 +144,7 @@ def nest(levels, rng, multi):
 def alternating(rng):
     u = _alt_unit(rng)
     multi = rng.random() < 0.3
-    d = rng.randint(40, 150) if multi else rng.randint(100, 700)      # levels (a pair quote+list is two)
+    d = rng.randint(40, 150) if multi else rng.randint(100, 600)      # levels (a pair quote+list is two)
     off = rng.randrange(len(u))
     levels = [u[(i + off) % len(u)] for i in range(d)]
     if rng.random() < 0.2:      # an irregular order instead of a repeated unit (still at most 3 list levels in a row)
@@ -216,7 +216,7 @@ def heading_html(rng):
 
 # ---------------------------------------------------------------- md_in_html containers with raw and Markdown blocks in any order
 RAW_BLOCKS = ['<pre>raw</pre>', '<pre>raw</pre>', '<pre>\nraw *x*\n\n    more\n</pre>', '<pre><code>a &amp; b</code></pre>', '<p>raw</p>', '<p>a\nb *c*</p>', '<p>unclosed',
-              '<table><tr><td>c</td></tr></table>', '<table>\n<tr>\n<td>*c*</td>\n</tr>\n</table>', '<hr>', '<hr />', '<div>raw</div>', '<div>\n\nx\n\n</div>', '<ul><li>x</li></ul>',
+              '<table><tr><td>c</td></tr></table>', '<table>\n<tr>\n<td>*c*</td>\n</tr>\n</table>', '<hr>', '<hr />', '<div>raw</div>', '<div>\n\nx\n\n</div>', '<ul><li>x</li></ul>', '<ul>\n</ul>', '<ol></ol>', '<ul>', '<ol start="3">\n<li>x', '<dl></dl>',
               '<script>s < 1</script>', '<!-- c -->', '<h2>raw</h2>', '<textarea>\n    t\n</textarea>', '<br>', '<img src="s">', '<p>', '</p>', '</div>', '<pre>', '</pre>', '<?php x ?>']
 MD_BLOCKS = ['para *e*', 'two\nlines', '# h', '## h ##', 'h\n===', 'h\n---', '- a\n- b', '* a\n\n    cont', '1. a\n2. b', '> q', '> q\n> r\n\n> s', '    code', '    code', '    code\n\n    more',
              '\tcode', '```\nfence\n```', '~~~ py\nf\n~~~', '```\nunclosed', '***', '---', '[r]: /u "t"', '| a | b |\n|---|---|\n| c | d |', 'Term\n: def', 'Term\n\n:   def\n\n        code',
@@ -225,8 +225,17 @@ CONTAINERS = ['div', 'div', 'section', 'blockquote', 'article', 'aside', 'detail
 MDATTR = ['markdown="1"', 'markdown="1"', 'markdown="block"', 'markdown="span"', 'markdown', "markdown='1'", 'markdown="0"', 'markdown=1', 'MARKDOWN="1"', 'markdown="1" id="i"', 'class="c" markdown="1"']
 
 
+# further attributes of a container: names and values other processors look for (footnote/toc classes and ids) or that the
+# serializer has to cope with (namespace-like and malformed names)
+XATTR = ['class="footnote"', 'class="toc"', 'class="admonition note"', 'id="fn:1"', 'id="fnref:1"', 'id="i"', 'title="*t*"', 'a:b="c"', 'xmlns:x="y"', '{a', '{a}b="c"', '{}', '}',
+         '1a="b"', 'a=', '=b', 'a="', "a='b", 'data-x', 'markdown="1"', 'markdown="span"', 'style="x:y"', 'hidden', 'a.b="c"', 'é="é"', '&amp;="1"', '/']
+
+
 def md_container(rng, depth=0):
     tag = rng.choice(CONTAINERS); attr = rng.choice(MDATTR)
+    if rng.random() < 0.3:
+        extra = ' '.join(rng.choice(XATTR) for _ in range(rng.randint(1, 2)))
+        attr = attr + ' ' + extra if rng.random() < 0.6 else extra + ' ' + attr
     items = []
     for _ in range(rng.randint(1, 5)):
         r = rng.random()
@@ -254,3 +263,70 @@ def md_in_html_doc(rng):
         parts.append(c)
         if rng.random() < 0.4: parts.append(rng.choice(MD_BLOCKS + RAW_BLOCKS))
     return rng.choice(['\n\n', '\n\n', '\n']).join(parts), 'md-in-html'
+
+
+# ---------------------------------------------------------------- code-block options: fence info strings, brace attribute lists, codehilite headers
+# every option name fenced_code / codehilite / the Pygments HTML formatter and lexers read, with values from a hostile pool
+OPT_SAFE = ['hl_lines', 'hl_lines', 'hl_lines', 'hl_lines', 'hl_lines', 'linenums', 'linenums', 'guess_lang', 'use_pygments', 'css_class', 'cssclass', 'title', 'id', 'lang_prefix', 'linenos',
+            'pygments_formatter', 'k', 'class', 'data-x', 'filename', 'lineanchors', 'linespans', 'cssstyles', 'prestyles', 'cssfile', 'tagsfile', 'tagurlformat']
+OPT_RISKY = ['lang', 'style', 'pygments_style', 'noclasses', 'linenostart', 'linenostep', 'linenospecial', 'nowrap', 'full', 'nobackground', 'lineseparator', 'anchorlinenos',
+             'wrapcode', 'debug_token_types', 'noclobber_cssfile', 'stripnl', 'stripall', 'ensurenl', 'tabsize', 'encoding', 'inencoding', 'outencoding', 'startinline', 'src', 'options']
+OPT_VALUES = ['1', '2', '1 2', '1 3 2', '0', '00', '-1', '+1', '1.5', '1e3', '1,2', '1-3', '²', '①', '٣', '३', '１', '⁵', '½', 'Ⅷ', '1 ²', '① 2', '١ ٢', '1 x', 'x', '', ' ', '  1  ',
+              '999999999999999999999', '9' * 300, '1 ' * 60, 'true', 'false', 'True', 'FALSE', 'yes', 'no', 'on', 'off', 'none', 'None', 'null', 'inline', 'table', 'default', 'monokai',
+              'python', 'py3', 'text', 'nosuchlang', 'html', 'a=b', 'a="b"', "it's", '"', "'", '\\', '}', '{', '{}', 'é', '<b>', '&amp;', '*e*', 'a b', '#', '.', '\t1', '0x10', '1_0', 'nan', 'inf']
+FENCE_LANG = ['', '', 'python', 'py', '.python', 'c++', 'c#', 'text', 'nosuchlang', 'html+django', '²', 'é', '-', '.', '#!']
+
+
+# characters that are digits or numbers for SOME str predicate (isdigit / isdecimal / isnumeric) or for int() — the four disagree
+NUMERICISH = ['²', '³', '①', '⑩', '⁵', '₂', '፩', '٣', '३', '１', '𝟏', '½', 'Ⅷ', '一', '〇', '৪', '０', '꘠']
+
+
+def _optval(rng):
+    if rng.random() < 0.35:
+        return rng.choice(['%s', '1 %s', '%s 2', '1 %s 3', '%s%s', '-%s', '+%s', ' %s ']).replace('%s', rng.choice(NUMERICISH), 1).replace('%s', rng.choice(NUMERICISH))
+    v = rng.choice(OPT_VALUES)
+    if rng.random() < 0.15:
+        v = ' '.join(rng.choice(OPT_VALUES[:30]) for _ in range(rng.randint(2, 4)))
+    return v
+
+
+def _optpair(rng):
+    k = rng.choice(OPT_SAFE if rng.random() < 0.8 else OPT_RISKY)
+    v = _optval(rng)
+    q = rng.random()
+    if q < 0.35: return '%s="%s"' % (k, v.replace('"', ''))
+    if q < 0.55: return "%s='%s'" % (k, v.replace("'", ''))
+    if q < 0.85: return '%s=%s' % (k, v.replace(' ', '') or '1')
+    if q < 0.92: return k
+    return rng.choice(['%s=', '%s= %s', '%s =%s', '=%s%s', '%s==%s']).replace('%s', k, 1).replace('%s', v)
+
+
+def code_options(rng):
+    """1-3 code blocks whose options come in every spelling the extensions parse"""
+    out = []
+    for _ in range(rng.randint(1, 3)):
+        body = '\n'.join(rng.choice(['x = 1', 'def f(): pass', '<b>&amp;</b>', '', '    indented', '# c', '`', '~~~', '```', 'é']) for _ in range(rng.randint(1, 3)))
+        f = rng.choice(['```', '```', '~~~', '````', '~~~~'])
+        k = rng.randrange(10)
+        if k <= 4:      # brace attribute list
+            toks = []
+            if rng.random() < 0.7: toks.append(rng.choice(['.python', '.py', '.text', '.c', '.nosuchlang', '.²', 'python', '#i', '.a .b']))
+            toks += [_optpair(rng) for _ in range(rng.randint(1, 3))]
+            if rng.random() < 0.3: rng.shuffle(toks)
+            head = f + rng.choice(['', ' ', '  ']) + '{' + rng.choice(['', '', ':', ': ', ' ']) + ' '.join(toks) + rng.choice(['', ' ']) + '}' + rng.choice(['', '', ' ', ' x'])
+            blk = head + '\n' + body + '\n' + f
+        elif k <= 6:    # info string: language and hl_lines outside braces
+            q = rng.choice(['"', '"', "'"])
+            head = f + rng.choice(['', ' ']) + rng.choice(FENCE_LANG) + rng.choice(['', ' ']) + rng.choice(['hl_lines=', 'hl_lines=', 'hl_lines =', 'linenums=', 'HL_LINES=']) + q + _optval(rng).replace(q, '') + rng.choice([q, q, q, ''])
+            blk = head + rng.choice(['', ' ', ' {.c}']) + '\n' + body + '\n' + f
+        else:           # codehilite header in an indented code block: shebang / colons, optional path, language, hl_lines
+            q = rng.choice(['"', "'"])
+            head = rng.choice([':::', '::', '::::', '#!', '#!/usr/bin/', '#!/usr/bin/env ', ':::/']) + rng.choice(FENCE_LANG) + rng.choice(['', ' ', '  ']) + \
+                rng.choice(['', 'hl_lines=' + q + _optval(rng).replace(q, '') + rng.choice([q, q, '']), _optpair(rng)])
+            blk = '\n'.join('    ' + ln for ln in [head] + body.split('\n'))
+        w = rng.random()
+        if w < 0.08: blk = '- a\n\n' + '\n'.join('    ' + ln for ln in blk.split('\n'))
+        elif w < 0.14: blk = '\n'.join('> ' + ln for ln in blk.split('\n'))
+        elif w < 0.2: blk = '<div markdown="1">\n' + blk + '\n</div>'
+        out.append(blk)
+    return rng.choice(['\n\n', '\n\n', '\n', '\n\ntext\n\n']).join(out), 'code-options'
